@@ -45,148 +45,193 @@ def finite_vec(v):
     return all(math.isfinite(x) for x in v)
 
 
-def run_ctor(ctx):
+def build_rotation(c):
     from opensquirrel.ir import BlochSphereRotation
 
+    try:
+        with np.errstate(all="ignore"):
+            g = BlochSphereRotation(c["q"], tuple(c["axis"]), c["angle"], c["phase"])
+        return ("ok", g)
+    except (ValueError, TypeError) as e:
+        return ("err", type(e).__name__)
+
+
+def ctor_request(c):
+    return ["mk_bsr_checked", c["q"], c["axis"], c["angle"], c["phase"]]
+
+
+def run_ctor(ctx):
     cases = ctor_cases(ctx)
     ctx.suite("rotation_ctor", cases=len(cases))
-    impl = []
-    for c in cases:
-        try:
-            with np.errstate(all="ignore"):
-                g = BlochSphereRotation(c["q"], tuple(c["axis"]), c["angle"], c["phase"])
-            impl.append(("ok", g))
-        except (ValueError, TypeError) as e:
-            impl.append(("err", type(e).__name__))
-    mres = model.call_many([["mk_bsr_checked", c["q"], c["axis"], c["angle"], c["phase"]] for c in cases])
-    for c, (st, g), (margin, r) in zip(cases, impl, mres):
-        ax = c["axis"]
-        degenerate = (not finite_vec(ax)) or all(x == 0 for x in ax)
-        ctx.seen(c, not degenerate or True)
-        ctx.bump("axis_degenerate" if degenerate else "axis_ok")
-        mv = ser.canon(r)
-        # correspondence
-        if st == "ok":
-            iv = ser.canon(sexp.loads(sexp.dumps(ser.ser_gate(g))))
-            if mv[0] != "ok":
-                ctx.disagree("rotation_ctor", c, f"impl constructed, model refused {mv}", margin)
-                eq = False
-            else:
-                d = ser.struct_diff(iv, mv[1], 1e-9)
-                if d:
-                    ctx.disagree("rotation_ctor", c, d, margin)
-                eq = d is None
-        else:
-            eq = mv[0] == "err"
-            if not eq:
-                ctx.disagree("rotation_ctor", c, f"impl raised {g}, model constructed", margin)
-        # oracle
-        if degenerate:
-            if st == "ok":
-                ctx.oracle_fail("rotation_ctor", c, "zero / non-finite axis produced an object instead of an error", eq)
-            continue
-        if st != "ok":
-            ctx.oracle_fail("rotation_ctor", c, f"valid request refused ({g})", eq)
-            continue
-        axv = np.asarray(g.axis.value, dtype=float)
-        if not np.all(np.isfinite(axv)) or abs(float(axv @ axv) - 1) > 1e-9:
-            ctx.oracle_fail("rotation_ctor", c, f"axis not a finite unit vector: {axv}", eq)
-            continue
-        ATOL = 1e-7
-        for nm, val in (("angle", float(g.angle)), ("phase", float(g.phase))):
-            if not (-PI - 1e-12 < val <= PI + ATOL + 1e-12) or not math.isfinite(val):
-                ctx.oracle_fail("rotation_ctor", c, f"{nm} {val} outside (-pi, pi] (tolerance 1e-7)", eq)
-        # denotes the requested operator: same rotation, angle identified modulo 2 pi
-        scale = max(abs(x) for x in ax)
-        want_axis = oracles.unit([x / scale for x in ax])
-        want = oracles.rot(want_axis, c["angle"], c["phase"])
-        got = oracles.rot(axv, float(g.angle), float(g.phase))
-        in_range = -PI + ATOL <= c["angle"] <= PI and -PI + ATOL <= c["phase"] <= PI
-        d = float(np.abs(got - want).max()) if in_range else min(float(np.abs(got - want).max()), float(np.abs(got + want).max()))
-        tol = 1e-9 * max(1.0, abs(c["angle"]) + abs(c["phase"]))
-        if d > tol:
-            ctx.oracle_fail("rotation_ctor", c, f"operator differs from the requested one by {d:.3g}", eq)
+    impl = [build_rotation(c) for c in cases]
+    mres = model.call_many([ctor_request(c) for c in cases])
+    for c, im, mr in zip(cases, impl, mres):
+        check_ctor(ctx, c, im, mr)
     ctx.sample(cases[0])
     ctx.sample({"case": cases[-1], "impl": impl[-1][0]})
 
 
+def check_ctor(ctx, c, im, mr):
+    st, g = im
+    margin, r = mr
+    ax = c["axis"]
+    degenerate = (not finite_vec(ax)) or all(x == 0 for x in ax)
+    ctx.seen(c, not degenerate or True)
+    ctx.bump("axis_degenerate" if degenerate else "axis_ok")
+    mv = ser.canon(r)
+    # correspondence
+    if st == "ok":
+        iv = ser.canon(sexp.loads(sexp.dumps(ser.ser_gate(g))))
+        if mv[0] != "ok":
+            ctx.disagree("rotation_ctor", c, f"impl constructed, model refused {mv}", margin)
+            eq = False
+        else:
+            d = ser.struct_diff(iv, mv[1], 1e-9)
+            if d:
+                ctx.disagree("rotation_ctor", c, d, margin)
+            eq = d is None
+    else:
+        eq = mv[0] == "err"
+        if not eq:
+            ctx.disagree("rotation_ctor", c, f"impl raised {g}, model constructed", margin)
+    # oracle
+    if degenerate:
+        if st == "ok":
+            ctx.oracle_fail("rotation_ctor", c, "zero / non-finite axis produced an object instead of an error", eq)
+        return
+    if st != "ok":
+        ctx.oracle_fail("rotation_ctor", c, f"valid request refused ({g})", eq)
+        return
+    axv = np.asarray(g.axis.value, dtype=float)
+    if not np.all(np.isfinite(axv)) or abs(float(axv @ axv) - 1) > 1e-9:
+        ctx.oracle_fail("rotation_ctor", c, f"axis not a finite unit vector: {axv}", eq)
+        return
+    ATOL = 1e-7
+    for nm, val in (("angle", float(g.angle)), ("phase", float(g.phase))):
+        if not (-PI - 1e-12 < val <= PI + ATOL + 1e-12) or not math.isfinite(val):
+            ctx.oracle_fail("rotation_ctor", c, f"{nm} {val} outside (-pi, pi] (tolerance 1e-7)", eq)
+    # denotes the requested operator: same rotation, angle identified modulo 2 pi
+    scale = max(abs(x) for x in ax)
+    want_axis = oracles.unit([x / scale for x in ax])
+    want = oracles.rot(want_axis, c["angle"], c["phase"])
+    got = oracles.rot(axv, float(g.angle), float(g.phase))
+    in_range = -PI + ATOL <= c["angle"] <= PI and -PI + ATOL <= c["phase"] <= PI
+    d = float(np.abs(got - want).max()) if in_range else min(float(np.abs(got - want).max()), float(np.abs(got + want).max()))
+    tol = 1e-9 * max(1.0, abs(c["angle"]) + abs(c["phase"]))
+    if d > tol:
+        ctx.oracle_fail("rotation_ctor", c, f"operator differs from the requested one by {d:.3g}", eq)
+
+
+def build_matrix_gate(case):
+    """-> ("ok" | "err", model request) for a matrix gate on the case's operand list"""
+    from opensquirrel.ir import MatrixGate
+
+    ops = case["ops"]
+    dim = 1 << len(ops) if case["shape_ok"] else (1 << len(ops)) + 1
+    m = np.eye(max(dim, 1))
+    try:
+        MatrixGate(m, ops)
+        st = "ok"
+    except ValueError:
+        st = "err"
+    rows = [[[float(x), 0.0] for x in row] for row in m]
+    return st, ["mk_mat", rows, ops]
+
+
+def check_matrix_operands(ctx, case, st):
+    ops = case["ops"]
+    want = "ok" if (len(ops) >= 2 and len(set(ops)) == len(ops) and case["shape_ok"]) else "err"
+    ctx.seen(case)
+    if st != want:
+        ctx.oracle_fail("operands", case, f"MatrixGate {st}, expected {want}", None)
+
+
+def build_controlled_gate(case):
+    """-> ("ok" | "err", model request), or None when the inner controlled gate cannot be built"""
+    from opensquirrel.ir import BlochSphereRotation, ControlledGate
+
+    c, tq = case["control"], case["targets"]
+    g = BlochSphereRotation(tq[-1], (1, 0, 0), 1.0)
+    for cc in reversed(tq[:-1]):
+        try:
+            g = ControlledGate(cc, g)
+        except ValueError:
+            return None
+    try:
+        ControlledGate(c, g)
+        st = "ok"
+    except ValueError:
+        st = "err"
+    return st, ["mk_ctrl", c, ser.ser_gate(g)]
+
+
+def check_controlled_operands(ctx, case, st):
+    ctx.seen(case)
+    want = "err" if case["control"] in case["targets"] else "ok"
+    if st != want:
+        ctx.oracle_fail("operands", case, f"ControlledGate {st}, expected {want}", None)
+
+
+def check_operands_model(ctx, case, st, mr):
+    _, r = mr
+    mv = str(r[0])
+    if mv != st:
+        ctx.disagree("operands", case, f"impl {st} model {mv}")
+
+
+NON_NUMERIC = ("x", None, [1, 2], (1, 0))
+
+
+def check_non_numeric(ctx, case, bad):
+    from opensquirrel.ir import BlochSphereRotation
+
+    ctx.seen(case)
+    try:
+        with np.errstate(all="ignore"):
+            BlochSphereRotation(0, bad, 1.0)
+        ctx.oracle_fail("operands", case, "non-numeric axis accepted", None)
+    except (TypeError, ValueError):
+        pass
+
+
 def run_operands(ctx):
     """all operand lists over 0..3 of length 0..4 for matrix gates; all (control, target list) for controlled gates"""
-    from opensquirrel.ir import BlochSphereRotation, ControlledGate, MatrixGate
-
-    n = 0
     reqs, expect, cases = [], [], []
     for k in range(0, 5):
         for ops in itertools.product(range(4), repeat=k):
             ops = list(ops)
             for shape_ok in (True, False):
-                dim = 1 << len(ops) if shape_ok else (1 << len(ops)) + 1
-                m = np.eye(max(dim, 1))
                 if not shape_ok and ctx.quick and ctx.rng.random() < 0.8:
                     continue
-                try:
-                    MatrixGate(m, ops)
-                    st = "ok"
-                except ValueError:
-                    st = "err"
-                rows = [[[float(x), 0.0] for x in row] for row in m]
-                reqs.append(["mk_mat", rows, ops])
-                expect.append(st)
                 case = {"kind": "mat", "ops": ops, "shape_ok": shape_ok}
+                st, req = build_matrix_gate(case)
+                reqs.append(req)
+                expect.append(st)
                 cases.append(case)
-                want = "ok" if (len(ops) >= 2 and len(set(ops)) == len(ops) and shape_ok) else "err"
-                ctx.seen(case)
-                if st != want:
-                    ctx.oracle_fail("operands", case, f"MatrixGate {st}, expected {want}", None)
+                check_matrix_operands(ctx, case, st)
     for c in range(4):
         for depth in (1, 2):
             for tq in itertools.product(range(4), repeat=depth):
-                g = BlochSphereRotation(tq[-1], (1, 0, 0), 1.0)
-                inner_ok = True
-                for cc in reversed(tq[:-1]):
-                    try:
-                        g = ControlledGate(cc, g)
-                    except ValueError:
-                        inner_ok = False
-                        break
-                if not inner_ok:
-                    continue
-                try:
-                    ControlledGate(c, g)
-                    st = "ok"
-                except ValueError:
-                    st = "err"
-                reqs.append(["mk_ctrl", c, ser.ser_gate(g)])
-                expect.append(st)
                 case = {"kind": "ctrl", "control": c, "targets": list(tq)}
+                built = build_controlled_gate(case)
+                if built is None:
+                    continue
+                reqs.append(built[1])
+                expect.append(built[0])
                 cases.append(case)
-                ctx.seen(case)
-                want = "err" if c in tq else "ok"
-                if st != want:
-                    ctx.oracle_fail("operands", case, f"ControlledGate {st}, expected {want}", None)
+                check_controlled_operands(ctx, case, built[0])
     mres = model.call_many(reqs)
-    for case, st, (_, r) in zip(cases, expect, mres):
-        mv = str(r[0])
-        if mv != st:
-            ctx.disagree("operands", case, f"impl {st} model {mv}")
+    for case, st, mr in zip(cases, expect, mres):
+        check_operands_model(ctx, case, st, mr)
     # non-numeric values
-    for bad in ("x", None, [1, 2], (1, 0)):
-        case = {"kind": "non_numeric", "value": repr(bad)}
-        ctx.seen(case)
-        try:
-            with np.errstate(all="ignore"):
-                BlochSphereRotation(0, bad, 1.0)
-            ctx.oracle_fail("operands", case, "non-numeric axis accepted", None)
-        except (TypeError, ValueError):
-            pass
+    for bad in NON_NUMERIC:
+        check_non_numeric(ctx, {"kind": "non_numeric", "value": repr(bad)}, bad)
     ctx.suite("operands", cases=len(cases), exhaustive=True)
     ctx.exhaustive = True
 
 
 def run_aliasing(ctx):
     """a constructed gate owns its data: writing to the arrays it was built from afterwards must not change it"""
-    from opensquirrel.ir import Axis, BlochSphereRotation, MatrixGate
-
     rng = ctx.rng
     n = 0
     for _ in range(ctx.pick(60, 400)):
@@ -198,22 +243,27 @@ def run_aliasing(ctx):
             buf = buf.astype(np.float32)
         elif dtype_case == "int" and all(float(x).is_integer() for x in ax):
             buf = np.array(ax, dtype=np.int64)
-        case = {"kind": "aliasing", "axis": ax, "dtype": str(buf.dtype)}
-        ctx.seen(case)
+        check_aliasing(ctx, {"kind": "aliasing", "axis": ax, "dtype": str(buf.dtype)}, buf)
         n += 1
-        g = BlochSphereRotation(0, buf, 1.0, 0.25)
-        a2 = Axis(buf)
-        before = (np.array(g.axis.value, copy=True), np.array(a2.value, copy=True))
-        buf[:] = [0, 3, 4]
-        if not (np.array_equal(g.axis.value, before[0]) and np.array_equal(a2.value, before[1])):
-            ctx.oracle_fail("aliasing", case, "the axis of a constructed rotation changed when the array it was built from was overwritten", None)
-            continue
-        m = np.eye(4, dtype=np.complex128)
-        mg = MatrixGate(m, [0, 1])
-        m[0, 0] = 7
-        if mg.matrix[0, 0] != 1 and False:
-            pass      # MatrixGate keeps a reference to a complex128 input by design of np.asarray; not demanded by the property
     ctx.suite("aliasing", cases=n)
+
+
+def check_aliasing(ctx, case, buf):
+    from opensquirrel.ir import Axis, BlochSphereRotation, MatrixGate
+
+    ctx.seen(case)
+    g = BlochSphereRotation(0, buf, 1.0, 0.25)
+    a2 = Axis(buf)
+    before = (np.array(g.axis.value, copy=True), np.array(a2.value, copy=True))
+    buf[:] = [0, 3, 4]
+    if not (np.array_equal(g.axis.value, before[0]) and np.array_equal(a2.value, before[1])):
+        ctx.oracle_fail("aliasing", case, "the axis of a constructed rotation changed when the array it was built from was overwritten", None)
+        return
+    m = np.eye(4, dtype=np.complex128)
+    mg = MatrixGate(m, [0, 1])
+    m[0, 0] = 7
+    if mg.matrix[0, 0] != 1 and False:
+        pass      # MatrixGate keeps a reference to a complex128 input by design of np.asarray; not demanded by the property
 
 
 def run(ctx):
@@ -226,14 +276,27 @@ def run(ctx):
     run_aliasing(ctx)
 
 
-def replay(ctx, payload):
-    from opensquirrel.ir import BlochSphereRotation
+def replay_operands(ctx, case):
+    built = build_matrix_gate(case) if case["kind"] == "mat" else build_controlled_gate(case)
+    if built is None:
+        return
+    (check_matrix_operands if case["kind"] == "mat" else check_controlled_operands)(ctx, case, built[0])
+    check_operands_model(ctx, case, built[0], model.call_many([built[1]])[0])
 
-    c = payload.get("case") or (payload.get("first_disagreement") or {}).get("case")
-    try:
-        g = BlochSphereRotation(c["q"], tuple(c["axis"]), c["angle"], c["phase"])
-        res = repr(g)
-    except Exception as e:  # noqa: BLE001
-        res = f"raised {type(e).__name__}: {e}"
-    (m, r), = model.call_many([["mk_bsr_checked", c["q"], c["axis"], c["angle"], c["phase"]]])
-    return {"impl": res, "model": sexp.dumps(r), "fails": payload.get("kind") == "oracle"}
+
+def replay(ctx, payload):
+    from harness import framework
+
+    suite, c = framework.replay_target(payload)
+    if c is None:
+        return framework.replay_nothing(payload)
+    kind = c.get("kind")
+    if kind in ("mat", "ctrl"):
+        replay_operands(ctx, c)
+    elif kind == "non_numeric":
+        check_non_numeric(ctx, c, {repr(b): b for b in NON_NUMERIC}[c["value"]])
+    elif kind == "aliasing":
+        check_aliasing(ctx, c, np.array(c["axis"], dtype=np.dtype(c["dtype"])))
+    else:
+        check_ctor(ctx, c, build_rotation(c), model.call_many([ctor_request(c)])[0])
+    return framework.replay_result(ctx)
